@@ -1,7 +1,9 @@
 (* SqlGE: SQLStorage.add / update / delete generated from vakt/storage/sql/__init__.py (x-mode: exceptions carry the
    session state) equal the call sequences of Model/SqlSession.v. *)
 From Coq Require Import ZArith List Bool.
-From Vakt Require Import Base.PyMonad Model.Store Model.SqlSession.
+From Vakt Require Import Base.PyMonad Base.PyVal Model.Regex Model.Rules Model.Policy Model.Checkers Model.Guard
+     Model.Store Model.SqlSession Model.Prefilter Proofs.GuardP.
+From Vakt Require Props.C07.
 From VaktGen Require Import SqlG.
 Import ListNotations.
 
@@ -33,3 +35,33 @@ End sql.
 Print Assumptions sql_add_eq.
 Print Assumptions sql_update_eq.
 Print Assumptions sql_delete_eq.
+
+(* ---------- the candidate query: dispatch on the checker, generated from _get_filtered_cursor ---------- *)
+Section prefilter.
+  Variable regex_filter_ : policy -> bool.
+
+  (* every policy the checker matches is selected by the query built for that checker (dialects without a regex
+     operator, policies as read back from SQL, string inquiry fields) *)
+  Theorem sql_prefilter_sound : forall uid eff su re ac ctx d p q a s r ck ci rxof,
+    mk_policy uid eff su re ac ctx d [60%N] [62%N] = Some p ->
+    i_action q = VStr a -> i_subject q = VStr s -> i_resource q = VStr r ->
+    matchb (fits rxof ck) q p = true ->
+    exists pre, sql_prefilter_g regex_filter_ (CkKnown ck) false ci a s r = Ok pre /\ pre p = true.
+  Proof.
+    intros uid eff su re ac ctx d p q a s r ck ci rxof Hmk Ha Hs Hr Hm.
+    destruct (Props.C07.C07_sql_sound uid eff su re ac ctx d p q a s r Hmk Ha Hs Hr rxof) as [F [E [R U]]].
+    destruct ck; cbn; eexists; (split; [reflexivity|]).
+    - apply R, Hm.
+    - apply E, Hm.
+    - apply F, Hm.
+    - apply U, Hm.
+  Qed.
+
+  Lemma sql_prefilter_no_checker rd ci a s r p :
+    exists pre, sql_prefilter_g regex_filter_ CkNone rd ci a s r = Ok pre /\ pre p = true.
+  Proof. eexists. split; reflexivity. Qed.
+
+  Lemma sql_prefilter_unknown rd ci a s r : sql_prefilter_g regex_filter_ CkOther rd ci a s r = Raise EUnknownChecker.
+  Proof. reflexivity. Qed.
+End prefilter.
+Print Assumptions sql_prefilter_sound.
